@@ -30,6 +30,8 @@ def plan(tier: str, seed: int) -> Plan:
     conds.append(Condition("options-history", "history", H, "options_history", {}, T, required=False,
                            bounds="10 pointer texts with backslash / percent escapes; one earlier parse of the same text under symbolic options, then "
                                   "the decoding-off parse (symbolic uri_decode) must read the text per RFC 6901; symbolic leaf"))
+    conds.append(Condition("limit-tokens", "errors", H, "limit_tokens", {}, T, required=False,
+                           bounds="6 digit tokens up to and including 2**53 - 1 as member names and as indices of an array of length<=2; symbolic leaf"))
     conds.append(Condition("index-render", "errors", H, "index_render", {}, T, bounds="index 0..12 rendered as decimal text, array length<=4"))
     return Plan(
         conditions=conds,
